@@ -65,6 +65,18 @@ func mavenCore(s string) bool {
 }
 
 var findingClasses = []findingClass{
+	// composer: the literal text "1.0b1" is special-cased in matchesCaret, so padding it matters
+	{"F-composer-caret-text-case", "C18", "composer", func(kind string, rng string, vs []string) bool {
+		if kind != "version-padding-contains" || !strings.Contains(rng, "^") {
+			return false
+		}
+		for _, v := range vs {
+			if strings.TrimSpace(v) == "1.0b1" {
+				return true
+			}
+		}
+		return false
+	}},
 	// hex ~>X.Y with Y>0 stops at X.(Y+1).0 instead of (X+1).0.0
 	{"F-hex-pessimistic-minor", "C05", "hex", func(kind string, rng string, vs []string) bool {
 		m := regexp.MustCompile(`^~>\s*(\d+)\.(\d+)$`).FindStringSubmatch(strings.TrimSpace(rng))
